@@ -47,12 +47,14 @@ func (s *sharedEncryption) Close() error {
 }
 
 func (s *sharedEncryption) Remove() {
+	verifHook("shared.remove.enter", s)
 	s.mu.Lock()
 
 	for s.accessCounter > 0 {
 		s.cond.Wait()
 	}
 
+	verifHook("shared.remove.closing.locked", s)
 	s.Encryption.Close()
 
 	s.mu.Unlock()
